@@ -19,8 +19,13 @@ CLAIMED = {
         "design": "DESIGN.md §6 C01"},
 }
 
+# properties whose check exists but is being reworked: not claimed until it passes on the unchanged tree again
+HOLD = {"C18": "check being adapted to the repaired sweep setters (fix commits c033754, 7f110fb); not claimed until it passes again"}
+
 # further claims: props/<id>.manifest.json with keys text, note, technique, design
 for _p in ALL:
+    if _p in HOLD:
+        continue
     _f = os.path.join(ROOT, "props", _p.lower() + ".manifest.json")
     if os.path.exists(_f):
         CLAIMED[_p] = json.load(open(_f))
@@ -56,7 +61,7 @@ def main():
         "checks": checks,
         "notes": "See DESIGN.md. Each check regenerates coq/Gen from /repo, rebuilds the harness against /repo, re-checks the property's theorems, "
                  "runs the correspondence cases and the property oracle, and writes evidence/<id>.json.",
-        "not_applicable": [{"property_id": p, "reason": NOT_YET} for p in ALL if p not in CLAIMED],
+        "not_applicable": [{"property_id": p, "reason": HOLD.get(p, NOT_YET)} for p in ALL if p not in CLAIMED],
     }
     with open(os.path.join(ROOT, "MANIFEST.json"), "w") as f:
         json.dump(man, f, indent=1)
